@@ -30,6 +30,17 @@ pub fn port_of(a: &SocketAddr) -> u16 {
     a.port()
 }
 
+/// address as a small number for the event trace: the port for simulator addresses ([::]:port), otherwise a number
+/// above 20000 derived from all its bytes (so that a foreign address is never mistaken for a simulator address)
+pub fn tport(a: &SocketAddr) -> u32 {
+    if *a == addr_of(a.port()) {
+        a.port() as u32
+    } else {
+        let s = format!("{}", a);
+        20000 + (s.bytes().fold(7u32, |h, b| h.wrapping_mul(31).wrapping_add(b as u32)) % 40000)
+    }
+}
+
 pub struct SimNode<P: Protocol> {
     pub addr: SocketAddr,
     pub node: Node<P>,
@@ -218,10 +229,10 @@ impl<P: Protocol> Sim<P> {
         let peers: Vec<Value> = info
             .peers
             .iter()
-            .map(|(id, addrs)| json!({"nid": id.map(|i| self.nid(&i)).unwrap_or(json!([0, 0])), "hasid": id.is_some(), "addrs": addrs.iter().map(port_of).collect::<Vec<_>>()}))
+            .map(|(id, addrs)| json!({"nid": id.map(|i| self.nid(&i)).unwrap_or(json!([0, 0])), "hasid": id.is_some(), "addrs": addrs.iter().map(tport).collect::<Vec<_>>()}))
             .collect();
         json!({"nid": self.nid(&info.node_id), "claims": info.claims.iter().map(|r| format!("{}", r)).collect::<Vec<_>>(),
-               "pt": info.peer_timeout.map(|v| v as i64).unwrap_or(-1), "addrs": info.addrs.iter().map(port_of).collect::<Vec<_>>(), "peers": peers})
+               "pt": info.peer_timeout.map(|v| v as i64).unwrap_or(-1), "addrs": info.addrs.iter().map(tport).collect::<Vec<_>>(), "peers": peers})
     }
 
     /// state projection of node i for the event trace (absolute times)
@@ -234,24 +245,24 @@ impl<P: Protocol> Sim<P> {
             .iter()
             .map(|p| {
                 let ct = objs.iter().find(|o| o.1 && o.0 == p.addr).map(|o| (o.2 as i64, o.4 as i64)).unwrap_or((0, -1));
-                let addrs: Vec<u16> = paddrs.iter().find(|x| x.0 == p.addr).map(|x| x.1.iter().map(port_of).collect()).unwrap_or_default();
-                json!({"a": port_of(&p.addr), "nid": self.nid(&p.node_id), "exp": p.timeout, "pt": p.peer_timeout, "init": p.has_init, "ist": ct.0, "ct": ct.1,
+                let addrs: Vec<u32> = paddrs.iter().find(|x| x.0 == p.addr).map(|x| x.1.iter().map(tport).collect()).unwrap_or_default();
+                json!({"a": tport(&p.addr), "nid": self.nid(&p.node_id), "exp": p.timeout, "pt": p.peer_timeout, "init": p.has_init, "ist": ct.0, "ct": ct.1,
                        "plain": p.algorithm == "PLAIN", "addrs": addrs})
             })
             .collect();
         peers.sort_by_key(|v| v["a"].as_u64());
-        let mut pend: Vec<Value> = objs.iter().filter(|o| !o.1).map(|o| json!({"a": port_of(&o.0), "st": o.2, "r": o.3})).collect();
+        let mut pend: Vec<Value> = objs.iter().filter(|o| !o.1).map(|o| json!({"a": tport(&o.0), "st": o.2, "r": o.3})).collect();
         pend.sort_by_key(|v| v["a"].as_u64());
-        let mut claims: Vec<Value> = n.verif_table().verif_claims().iter().map(|(peer, range, exp)| json!({"p": port_of(peer), "r": format!("{}", range), "exp": exp})).collect();
+        let mut claims: Vec<Value> = n.verif_table().verif_claims().iter().map(|(peer, range, exp)| json!({"p": tport(peer), "r": format!("{}", range), "exp": exp})).collect();
         claims.sort_by_key(|v| v.to_string());
-        let mut cachep: Vec<u16> = n.verif_table().verif_cache().iter().map(|(_, peer, _)| port_of(peer)).collect();
+        let mut cachep: Vec<u32> = n.verif_table().verif_cache().iter().map(|(_, peer, _)| tport(peer)).collect();
         cachep.sort();
         cachep.dedup();
-        let mut own: Vec<u16> = n.verif_own_addresses().iter().map(port_of).collect();
+        let mut own: Vec<u32> = n.verif_own_addresses().iter().map(tport).collect();
         own.sort();
         own.dedup();
         let (np, nr) = n.verif_timers();
-        let rc: Vec<Value> = n.verif_reconnect().iter().map(|(a, tries, to, next)| json!({"a": a.iter().map(port_of).collect::<Vec<_>>(), "tries": tries, "to": to, "next": next})).collect();
+        let rc: Vec<Value> = n.verif_reconnect().iter().map(|(a, tries, to, next)| json!({"a": a.iter().map(tport).collect::<Vec<_>>(), "tries": tries, "to": to, "next": next})).collect();
         json!({"peers": peers, "pend": pend, "claims": claims, "cachep": cachep, "own": own, "np": np, "nr": nr, "rc": rc})
     }
 
@@ -291,7 +302,7 @@ impl<P: Protocol> Sim<P> {
     fn classify(&self, evs: &[VerifEvent], sent: &[Dgram], panicked: bool) -> (Vec<Value>, bool, String, i64, Option<Value>) {
         let tname = Self::type_name;
         let tagerr = sent.iter().any(|d| d.tag == "?");
-        let out: Vec<Value> = sent.iter().map(|d| json!([port_of(&d.to), d.tag])).collect();
+        let out: Vec<Value> = sent.iter().map(|d| json!([tport(&d.to), d.tag])).collect();
         // result
         let mut res = "ignored".to_string();
         let mut mt = -1i64;
